@@ -50,6 +50,21 @@ SPEC = {
 DETECTOR_CLASSES = {"Geometry", "Environment", "Characteristics", "APDCharacteristics"}
 
 
+
+def _same_func(model, dotted: str) -> bool:
+    """does the loaded model designate the function written in the file ?  (public view: the callable it resolves to;
+    the private attribute holding the dotted path is used when present, a rename of it must not matter)"""
+    name = getattr(model, "_func_name", None)
+    if isinstance(name, str):
+        return name == dotted
+    try:
+        from pyxel.evaluator import evaluate_reference
+
+        return model.func is evaluate_reference(dotted)
+    except Exception:  # noqa: BLE001
+        return False
+
+
 def in_spec(cf, x):
     lo, strict, hi = SPEC[cf]
     if isinstance(x, float) and x != x:
@@ -577,7 +592,7 @@ def run_document_impl(doc, loader=None):
             diffs.append("group %s: %s models loaded, %d written" % (g, None if grp is None else len(grp.models), len(written)))
             continue
         for m, w in zip(grp.models, written):
-            if m.name != w["name"] or m._func_name != w["func"] or m.enabled is not w.get("enabled", True):
+            if m.name != w["name"] or not _same_func(m, w["func"]) or m.enabled is not w.get("enabled", True):
                 diffs.append("model %s.%s header differs" % (g, w["name"]))
             if canon_any(dict(m.arguments)) != canon_any(w.get("arguments") or {}):
                 diffs.append("model %s.%s arguments written %r loaded %r" % (g, w["name"], w.get("arguments"), dict(m.arguments)))
